@@ -34,6 +34,8 @@ type stmtRec struct {
 	Err  string
 	Uns  bool // the interpreter does not support the statement
 	Rows int
+	// Scripted: answered with the scripted connection-level failure (variant.Transient), never executed
+	Scripted bool
 }
 
 // rig is the real reader (router → controllers → services → planners) on a scripted driver whose
@@ -46,8 +48,11 @@ type rig struct {
 	mu      sync.Mutex
 	db      *chsql.DB
 	complex bool
-	stmts   []stmtRec
-	scans   []scanRec
+	// transient: arm one connection-level failure per request (see variant.Transient)
+	transient     bool
+	transientLeft int
+	stmts         []stmtRec
+	scans         []scanRec
 }
 
 type variant struct {
@@ -57,6 +62,10 @@ type variant struct {
 	// Complex: the TraceQL complexity estimate is answered with 25e6 index rows, so the search runs through the
 	// complex request processor: three portions, the later ones also carrying the trace ids found so far
 	Complex bool `json:"complex,omitempty"`
+	// Transient: the first statement of the request that reads a data table fails with a connection-level error
+	// (the server or a balancer closed the connection); whatever the reader does next — answer with an error, or
+	// try again — must stay inside the window
+	Transient bool `json:"transient,omitempty"`
 	// SmallLimit > 0 (portioned searches only): the search asks for that many traces, so that an early portion
 	// already fills the answer and the later ones run with whatever the processor carries over
 	SmallLimit int `json:"small_limit,omitempty"`
@@ -112,6 +121,7 @@ func (r *rig) session(v variant) *sqldrv.Session {
 func (r *rig) use(v variant) {
 	r.mu.Lock()
 	r.complex = v.Complex
+	r.transient = v.Transient
 	r.mu.Unlock()
 	cl := ""
 	if v.Cluster {
@@ -124,6 +134,10 @@ func (r *rig) setDB(db *chsql.DB) {
 	r.mu.Lock()
 	defer r.mu.Unlock()
 	r.db = db
+	r.transientLeft = 0
+	if r.transient {
+		r.transientLeft = 1
+	}
 	r.stmts = nil
 	r.scans = nil
 	if db != nil {
@@ -153,6 +167,12 @@ func (r *rig) handle(ctx context.Context, q string) (*sqldrv.Rows, error) {
 		// the complexity estimate (a count over the index, no rows of its own reach the answer)
 		r.stmts = append(r.stmts, rec)
 		return sqldrv.NewRows([]string{"_count"}, [][]driver.Value{{int64(25000000)}}), nil
+	}
+	if r.transientLeft > 0 && (strings.Contains(q, "samples_v3") || strings.Contains(q, "metrics_15s")) && !strings.Contains(q, "FROM settings") {
+		r.transientLeft--
+		rec.Scripted = true // not an interpreter verdict: the case goes on with whatever the reader does next
+		r.stmts = append(r.stmts, rec)
+		return nil, io.ErrUnexpectedEOF
 	}
 	res, err := db.Exec(q)
 	var rows *sqldrv.Rows
